@@ -527,7 +527,7 @@ Lemma simple_ok i : honest_b i = true ->
   match simple i with OBytes b => beqb b (i_res i) | OHang => false | _ => true end = true.
 Proof.
   intro H. unfold honest_b in H. apply andb_true_iff in H as [H _]. unfold simple, fetch_simple.
-  destruct (realize _ _ _ _) as [|stc b]; [reflexivity|]. cbn [honest_simple_b] in H.
+  destruct (realize _ _ _ _) as [|stc fr b]; [reflexivity|]. cbn [honest_simple_b] in H.
   destruct (stc =? 200)%N; [|reflexivity]. destruct (i_maxfetch i <? _)%Z; [reflexivity | exact H].
 Qed.
 
@@ -577,14 +577,14 @@ Qed.
 
 (* witnesses against the loop as it was before the repair *)
 Definition legacy_block_witness : input :=
-  {| i_res := [1; 2]%N; i_head := HeadOk true true; i_simple := KWhole200;
+  {| i_res := [1; 2]%N; i_head := HeadOk true true; i_simple := KWhole200 Declared;
      i_chunk := 1%Z; i_par := 2%Z; i_threshold := 1%Z; i_maxfetch := 100%Z; i_mult := MOff; i_maxh := 4%Z;
-     i_script := [((0, false), KFail); ((1, false), KExact)];
+     i_script := [((0, false), KFail); ((1, false), KExact Declared)];
      i_sched := [(0, false); (1, false)] |}.
 Definition legacy_whole_witness : input :=
-  {| i_res := [1; 2]%N; i_head := HeadOk true true; i_simple := KWhole200;
+  {| i_res := [1; 2]%N; i_head := HeadOk true true; i_simple := KWhole200 Declared;
      i_chunk := 1%Z; i_par := 2%Z; i_threshold := 1%Z; i_maxfetch := 100%Z; i_mult := MOff; i_maxh := 4%Z;
-     i_script := [((0, false), KWhole200); ((1, false), KWhole200)];
+     i_script := [((0, false), KWhole200 Chunked); ((1, false), KWhole200 Declared)];
      i_sched := [(0, false); (1, false)] |}.
 
 Lemma legacy_blocks : honest_b legacy_block_witness = true /\ parallel_legacy legacy_block_witness = OHang
@@ -706,4 +706,15 @@ Proof.
     assert (U0 : unfilled k (init plan)) by (unfold unfilled, init; cbn [results]; apply nth_repeat_none).
     destruct (U U0) as [Uk _]. unfold assemble.
     rewrite (nth_none_forallb (results s) k) by (try exact Uk; lia). reflexivity.
+Qed.
+
+(* the admission test never looks at how the body's length was signalled *)
+Lemma framing_irrelevant_l w st f1 f2 b : accept w (Resp st f1 b) = accept w (Resp st f2 b).
+Proof. reflexivity. Qed.
+
+(* a 206 body that ends cleanly but short (or long) is refused under every framing *)
+Lemma wrong_length_refused_l w st f b : length b <> w -> accept w (Resp st f b) = None.
+Proof.
+  intro H. unfold accept. destruct (length b =? w) eqn:E; [apply Nat.eqb_eq in E; contradiction|].
+  now rewrite andb_false_r.
 Qed.
